@@ -539,6 +539,19 @@ func run(c *reg.Ctx) {
 		emitPeach(c, plant(6, 2, kBreak), 2, 1, false, procs)
 		emitPeach(c, plant(6, 2, kFail), 0, 1, false, procs)
 		emitPeach(c, plant(0, -1, 0), 3, 0, false, procs)
+		// run-parallel: all functions fail; none fails
+		allFail := plant(5, -1, 0)
+		for i := range allFail {
+			allFail[i].Kind = kFail
+		}
+		emitRunPar(c, allFail, procs)
+		emitRunPar(c, plant(4, -1, 0), procs)
+		// several failures in one peach: all must be reported
+		twoFail := plant(6, 1, kFail)
+		twoFail[2].Kind = kFail
+		twoFail[3].Kind = kFail
+		emitPeach(c, twoFail, 0, 0, false, procs)
+		emitPeach(c, twoFail, 4, 1, false, procs)
 	}
 	// 2. generated
 	for i := 0; i < c.N; i++ {
@@ -559,9 +572,14 @@ func run(c *reg.Ctx) {
 			if n > 40 {
 				specs = specs[:40]
 			}
+			manyFail := c.Rand.Intn(2) == 0
 			for j := range specs { // run-parallel functions: normal or fail
 				if specs[j].Kind == kBreak || specs[j].Kind == kCont {
 					specs[j].Kind = kNormal
+				}
+				// several failing functions at once: every exception must be reported
+				if manyFail && c.Rand.Intn(2) == 0 {
+					specs[j].Kind = kFail
 				}
 			}
 			emitRunPar(c, specs, procs)
